@@ -11,6 +11,8 @@ import (
 	"sort"
 
 	hclog "github.com/hashicorp/go-hclog"
+	raftchunking "github.com/hashicorp/go-raftchunking"
+	chunktypes "github.com/hashicorp/go-raftchunking/types"
 
 	"github.com/hashicorp/raft"
 	"github.com/openbao/openbao/sdk/v2/physical"
@@ -59,6 +61,9 @@ func VerifCommandLogs(b *RaftBackend) ([]*raft.Log, error) {
 func VerifLogKind(l *raft.Log) (kind string, writes map[string][]byte, lowest uint64, startIndex uint64) {
 	if l.Type != raft.LogCommand {
 		return "config", nil, 0, 0
+	}
+	if c, _ := VerifChunk(l); c {
+		return "chunk", nil, 0, 0
 	}
 	cmd := &LogData{}
 	if err := proto.Unmarshal(l.Data, cmd); err != nil {
@@ -110,8 +115,30 @@ func VerifDump(f *FSM) (keys []string, vals [][]byte) {
 	return k2, v2
 }
 
+// VerifChunk reports whether a command entry is one chunk of a value that
+// was split by the chunking layer, and whether it is the last chunk.
+func VerifChunk(l *raft.Log) (isChunk, last bool) {
+	if l.Type != raft.LogCommand || len(l.Extensions) == 0 {
+		return false, false
+	}
+	var ci chunktypes.ChunkInfo
+	if err := proto.Unmarshal(l.Extensions, &ci); err != nil || ci.NumChunks == 0 {
+		return false, false
+	}
+	return true, ci.SequenceNum == ci.NumChunks-1
+}
+
+// VerifApplyBatch hands entries to the state machine the way hashicorp/raft
+// does: through the chunking layer in front of FSM.ApplyBatch.
+func VerifApplyBatch(f *FSM, logs []*raft.Log) []any {
+	return f.chunker.ApplyBatch(logs)
+}
+
 // VerifIsTxError reports whether an ApplyBatch response carries a transaction-conflict verdict.
 func VerifIsTxError(resp any) bool {
+	if cs, ok := resp.(raftchunking.ChunkingSuccess); ok {
+		resp = cs.Response
+	}
 	r, ok := resp.(*FSMApplyResponse)
 	if !ok {
 		return false
